@@ -14,12 +14,12 @@ Definition irrelevant (cf : cfg) (m : wmsg) : bool :=
 
 Definition with_todo (w : world) (t : list wmsg) : world :=
   {| w_todo := t; w_seq := w_seq w; w_reps := w_reps w; w_log := w_log w; w_ph := w_ph w; w_out := w_out w;
-     w_start := w_start w; w_lost := w_lost w |}.
+     w_start := w_start w |}.
 
 Lemma client_todo : forall cf w t, client_step cf (with_todo w t) = with_todo (client_step cf w) t.
 Proof.
-  intros cf [todo sq reps lg ph out start lost] t. unfold client_step, with_todo, call, set_ph, ncalls.
-  cbn [w_ph w_todo w_seq w_reps w_log w_out w_start w_lost].
+  intros cf [todo sq reps lg ph out start] t. unfold client_step, with_todo, call, set_ph, ncalls.
+  cbn [w_ph w_todo w_seq w_reps w_log w_out w_start].
   repeat match goal with
          | |- context [match ?x with _ => _ end] => destruct x
          | |- context [let '(_, _) := ?x in _] => destruct x
@@ -28,8 +28,8 @@ Qed.
 
 Lemma poll_todo : forall w t, consumer_poll (with_todo w t) = with_todo (consumer_poll w) t.
 Proof.
-  intros [todo sq reps lg ph out start lost] t. unfold consumer_poll, with_todo, set_ph.
-  cbn [w_ph w_todo w_seq w_reps w_log w_out w_start w_lost].
+  intros [todo sq reps lg ph out start] t. unfold consumer_poll, with_todo, set_ph.
+  cbn [w_ph w_todo w_seq w_reps w_log w_out w_start].
   repeat match goal with
          | |- context [match ?x with _ => _ end] => destruct x
          end; reflexivity.
@@ -56,8 +56,8 @@ Proof. destruct w; reflexivity. Qed.
 
 Lemma client_keeps_todo : forall cf x, w_todo (client_step cf x) = w_todo x.
 Proof.
-  intros cf [todo sq reps lg ph out start lost]. unfold client_step, call, set_ph.
-  cbn [w_ph w_todo w_seq w_reps w_log w_out w_start w_lost].
+  intros cf [todo sq reps lg ph out start]. unfold client_step, call, set_ph.
+  cbn [w_ph w_todo w_seq w_reps w_log w_out w_start].
   repeat match goal with
          | |- context [match ?y with _ => _ end] => destruct y
          | |- context [let '(_, _) := ?y in _] => destruct y
@@ -66,8 +66,8 @@ Qed.
 
 Lemma poll_keeps_todo : forall x, w_todo (consumer_poll x) = w_todo x.
 Proof.
-  intros [todo sq reps lg ph out start lost]. unfold consumer_poll, set_ph.
-  cbn [w_ph w_todo w_seq w_reps w_log w_out w_start w_lost].
+  intros [todo sq reps lg ph out start]. unfold consumer_poll, set_ph.
+  cbn [w_ph w_todo w_seq w_reps w_log w_out w_start].
   repeat match goal with
          | |- context [match ?y with _ => _ end] => destruct y
          end; reflexivity.
@@ -77,10 +77,10 @@ Lemma step_same : forall cf w w' a, same_but_todo cf w w' -> same_but_todo cf (s
 Proof.
   intros cf w w' a [He Hf]. destruct a; cbn [step].
   - (* the socket reader *)
-    destruct w as [todo sq reps lg ph out start lost]. destruct w' as [todo' sq' reps' lg' ph' out' start' lost'].
-    unfold with_todo in He. cbn [w_todo w_seq w_reps w_log w_ph w_out w_start w_lost] in He, Hf.
+    destruct w as [todo sq reps lg ph out start]. destruct w' as [todo' sq' reps' lg' ph' out' start'].
+    unfold with_todo in He. cbn [w_todo w_seq w_reps w_log w_ph w_out w_start] in He, Hf.
     inversion He; subst. clear He.
-    unfold tick, ncalls. cbn [w_todo w_seq w_reps w_log w_ph w_out w_start w_lost].
+    unfold tick, ncalls. cbn [w_todo w_seq w_reps w_log w_ph w_out w_start].
     inversion Hf as [|m m' r r' Hm Hr]; subst.
     + split; [reflexivity|constructor].
     + destruct Hm as [<-|[I1 I2]].
